@@ -38,6 +38,8 @@ def snapshot_isolation(chk: Check, rule: str = 'PROV-snapshot-isolation') -> Non
     prog = chk.prog
     mem = prog.cls('persistence.InMemoryPersister')
     pic = prog.cls('persistence.PicklePersister')
+    from .common import copy_protocol_is_deep
+    copy_protocol_is_deep(chk, rule)
     # 1. snapshot isolation -- save side
     ms = prog.view(mem.methods['save_checkpoint'])
     stores = [n for n in ast.walk(ms.node) if isinstance(n, ast.Assign) and isinstance(n.targets[0], ast.Subscript)]
